@@ -2,8 +2,9 @@
    clients of MpStreamModel.v): the reader operations FindValueByKey / ReadKey / ResetKey / the typed reads /
    OpenObjectScope / the destructors of MpScopeModel.v issue, one after the other, each decision taken from
    the answers seen so far.  Fragment of the history language (frag_reqs): RGet (any key kind, any target), RObj,
-   RArr with AGet / AObj / AArr / AEnd (nested to any depth), RVisit — repeated, absent, out-of-order keys and
-   arrays left partly read included; no byte arrays, no VisitKeys callbacks (REach), no guarded requests (ATry).
+   RArr with AGet / AObj / AArr / AEnd, RVisit, REach with VSkip / VGet / VObj / VArr (nested to any depth) —
+   repeated, absent, out-of-order keys and arrays left partly read included; no byte arrays, no guarded or
+   throwing requests (ATry / AThrow / VThrow).
    Proved here: on the string reader the client returns what run_obj_root returns (whenever that is
    Done .. false), and all its seeks stay inside the data. *)
 From BS Require Import Base MpSpec MpModel MpLemmas MpReader MpTyped MpScopeSpec MpScopeModel MpScopeLemmas MpScopeTyped MpScopeProofs MpScopeRefine.
@@ -130,40 +131,50 @@ Fixpoint c_visit_loop (fuel : nat) (cst : cscope) (p : N) (acc : list key) (k : 
     else k [KKeys acc] cst p
   end.
 
+(* SerializeValue(key, value) / OpenObjectScope(key) / OpenArrayScope(key); cbody drives the child scope *)
+Definition c_do_get (n : nat) (q : qkey) (t : target) (cst : cscope) (p : N) (k : list tok -> cscope -> N -> cl) : cl :=
+  c_find n q cst p (fun b cst1 p1 =>
+    if b then c_read_target t (fun tk p2 => k [tk] (c_on_finish cst1) p2)
+    else k [KFalse] cst1 p1).
+
+Definition c_obj_child (n : nat) (cbody : cscope -> N -> (list tok -> cscope -> N -> cl) -> cl) (kk : list tok -> N -> cl) : cl :=
+  call SM.RdMap
+    (fun v p2 => match v with
+                 | SM.VNum sz => cbody (mkC p2 sz 0 None) p2 (fun toks ccst p3 => c_close_obj n ccst p3 (fun p4 => kk (KOpen :: toks ++ [KClose]) p4))
+                 | _ => fail
+                 end)
+    (fun p2 => kk [KNone] p2).
+
+Definition c_arr_child (n : nat) (cbody : ascope -> N -> (list tok -> ascope -> N -> cl) -> cl) (kk : list tok -> N -> cl) : cl :=
+  call SM.RdArr
+    (fun v p2 => match v with
+                 | SM.VNum sz => cbody (mkA sz 0) p2 (fun toks cast p3 => c_close_arr n cast p3 (fun p4 => kk (KOpen :: toks ++ [KClose]) p4))
+                 | _ => fail
+                 end)
+    (fun p2 => kk [KNone] p2).
+
+Definition c_do_obj (n : nat) (cbody : cscope -> N -> (list tok -> cscope -> N -> cl) -> cl) (q : qkey) (cst : cscope) (p : N)
+    (k : list tok -> cscope -> N -> cl) : cl :=
+  c_find n q cst p (fun b cst1 p1 =>
+    if b then c_obj_child n cbody (fun toks p4 => k toks (c_on_finish cst1) p4) else k [KNone] cst1 p1).
+
+Definition c_do_arr (n : nat) (cbody : ascope -> N -> (list tok -> ascope -> N -> cl) -> cl) (q : qkey) (cst : cscope) (p : N)
+    (k : list tok -> cscope -> N -> cl) : cl :=
+  c_find n q cst p (fun b cst1 p1 =>
+    if b then c_arr_child n cbody (fun toks p4 => k toks (c_on_finish cst1) p4) else k [KNone] cst1 p1).
+
 (* the requests of the fragment; n bounds the loops (the member counts come from the document) *)
 Fixpoint c_req (n : nat) (r : req) (cst : cscope) (p : N) (k : list tok -> cscope -> N -> cl) {struct r} : cl :=
   match r with
-  | RGet q t =>
-    c_find n q cst p (fun b cst1 p1 =>
-      if b then c_read_target t (fun tk p2 => k [tk] (c_on_finish cst1) p2)
-      else k [KFalse] cst1 p1)
-  | RObj q body =>
-    c_find n q cst p (fun b cst1 p1 =>
-      if b then
-        call SM.RdMap
-          (fun v p2 => match v with
-                       | SM.VNum sz =>
-                         c_reqs n body (mkC p2 sz 0 None) p2 (fun toks ccst p3 =>
-                           c_close_obj n ccst p3 (fun p4 => k (KOpen :: toks ++ [KClose]) (c_on_finish cst1) p4))
-                       | _ => fail
-                       end)
-          (fun p2 => k [KNone] (c_on_finish cst1) p2)
-      else k [KNone] cst1 p1)
-  | RArr q body =>
-    c_find n q cst p (fun b cst1 p1 =>
-      if b then
-        call SM.RdArr
-          (fun v p2 => match v with
-                       | SM.VNum sz =>
-                         c_areqs n body (mkA sz 0) p2 (fun toks cast p3 =>
-                           c_close_arr n cast p3 (fun p4 => k (KOpen :: toks ++ [KClose]) (c_on_finish cst1) p4))
-                       | _ => fail
-                       end)
-          (fun p2 => k [KNone] (c_on_finish cst1) p2)
-      else k [KNone] cst1 p1)
+  | RGet q t => c_do_get n q t cst p k
+  | RObj q body => c_do_obj n (c_reqs n body) q cst p k
+  | RArr q body => c_do_arr n (c_areqs n body) q cst p k
   | RVisit =>
     c_reset_key cst p (fun cst1 p1 =>
       c_seek_if true (c_start cst1) p1 (fun p' => c_visit_loop n (c_set_index cst1 0) p' [] k))
+  | REach acts =>
+    c_reset_key cst p (fun cst1 p1 =>
+      c_seek_if true (c_start cst1) p1 (fun p' => c_vacts n acts (c_set_index cst1 0) p' k))
   | _ => fail
   end
 with c_reqs (n : nat) (l : reqs) (cst : cscope) (p : N) (k : list tok -> cscope -> N -> cl) {struct l} : cl :=
@@ -181,52 +192,59 @@ with c_areq (n : nat) (a : areq) (ast : ascope) (p : N) (k : list tok -> ascope 
     else c_read_target t (fun tk p2 => k [tk] next p2)
   | AObj body =>
     if a_index ast =? a_size ast then fail
-    else call SM.RdMap
-          (fun v p2 => match v with
-                       | SM.VNum sz =>
-                         c_reqs n body (mkC p2 sz 0 None) p2 (fun toks ccst p3 =>
-                           c_close_obj n ccst p3 (fun p4 => k (KOpen :: toks ++ [KClose]) next p4))
-                       | _ => fail
-                       end)
-          (fun p2 => k [KNone] next p2)
+    else c_obj_child n (c_reqs n body) (fun toks p4 => k toks next p4)
   | AArr body =>
     if a_index ast =? a_size ast then fail
-    else call SM.RdArr
-          (fun v p2 => match v with
-                       | SM.VNum sz =>
-                         c_areqs n body (mkA sz 0) p2 (fun toks cast p3 =>
-                           c_close_arr n cast p3 (fun p4 => k (KOpen :: toks ++ [KClose]) next p4))
-                       | _ => fail
-                       end)
-          (fun p2 => k [KNone] next p2)
+    else c_arr_child n (c_areqs n body) (fun toks p4 => k toks next p4)
   | _ => fail
   end
 with c_areqs (n : nat) (l : areqs) (ast : ascope) (p : N) (k : list tok -> ascope -> N -> cl) {struct l} : cl :=
   match l with
   | ANil => k [] ast p
   | ACons a l' => c_areq n a ast p (fun t1 ast1 p1 => c_areqs n l' ast1 p1 (fun t2 ast2 p2 => k (t1 ++ t2) ast2 p2))
+  end
+(* what a VisitKeys callback does with (a copy of) the visited key q *)
+with c_vact (n : nat) (a : vact) (q : qkey) (cst : cscope) (p : N) (k : list tok -> cscope -> N -> cl) {struct a} : cl :=
+  match a with
+  | VSkip => k [] cst p
+  | VGet t => c_do_get n q t cst p k
+  | VObj body => c_do_obj n (c_reqs n body) q cst p k
+  | VArr body => c_do_arr n (c_areqs n body) q cst p k
+  | _ => fail
+  end
+(* for (mIndex = 0; mIndex < mSize;) { ReadKey(fn); ResetKey(); } with fn = the i-th action *)
+with c_vacts (n : nat) (acts : vacts) (cst : cscope) (p : N) (k : list tok -> cscope -> N -> cl) {struct acts} : cl :=
+  match acts with
+  | VANil => c_visit_loop n cst p [] (fun _ cst' p' => k [] cst' p')
+  | VACons a acts' =>
+    if c_index cst <? c_size cst then
+      c_read_key (fun key p1 =>
+        c_vact n a (qkey_of_skey key) (c_set_key cst (Some key)) p1 (fun t1 cst2 p2 =>
+          c_reset_key cst2 p2 (fun cst3 p3 =>
+            c_vacts n acts' cst3 p3 (fun t2 cst4 p4 => k (t1 ++ t2) cst4 p4))))
+    else k [] cst p
   end.
 
 (* MsgPackReadRootScope::OpenObjectScope, the history, the scope's destruction *)
 Definition scope_client (n : nat) (h : reqs) : cl :=
-  call SM.RdMap
-    (fun v p => match v with
-                | SM.VNum sz =>
-                  c_reqs n h (mkC p sz 0 None) p (fun toks cst p3 =>
-                    c_close_obj n cst p3 (fun p4 => SM.CRet (Some (KOpen :: toks ++ [KClose], p4, false))))
-                | _ => fail
-                end)
-    (fun p => SM.CRet (Some ([KNone], p, false))).
+  c_obj_child n (c_reqs n h) (fun toks p4 => SM.CRet (Some (toks, p4, false))).
 
 (* the fragment *)
 Fixpoint frag_req (r : req) : bool :=
-  match r with RGet _ _ => true | RObj _ body => frag_reqs body | RArr _ body => frag_areqs body | RVisit => true | _ => false end
+  match r with
+  | RGet _ _ => true | RObj _ body => frag_reqs body | RArr _ body => frag_areqs body | RVisit => true | REach acts => frag_vacts acts
+  | _ => false
+  end
 with frag_reqs (l : reqs) : bool :=
   match l with RNil => true | RCons r l' => frag_req r && frag_reqs l' end
 with frag_areq (a : areq) : bool :=
   match a with AGet _ => true | AObj body => frag_reqs body | AArr body => frag_areqs body | AEnd => true | _ => false end
 with frag_areqs (l : areqs) : bool :=
-  match l with ANil => true | ACons a l' => frag_areq a && frag_areqs l' end.
+  match l with ANil => true | ACons a l' => frag_areq a && frag_areqs l' end
+with frag_vact (a : vact) : bool :=
+  match a with VSkip => true | VGet _ => true | VObj body => frag_reqs body | VArr body => frag_areqs body | _ => false end
+with frag_vacts (l : vacts) : bool :=
+  match l with VANil => true | VACons a l' => frag_vact a && frag_vacts l' end.
 
 Section ClientProofs.
   Variable narrow : N -> option N.
@@ -486,65 +504,144 @@ Section ClientProofs.
       frag_areqs l = true -> forall st d toks st' d' k, Suf d ->
       run_areqs narrow widen o l st d = (toks, Go st' d', false) ->
       SND (c_areqs n l st (pos d) k) d = SND (k toks st' (pos d')) d' /\ Suf d'.
+    Definition vact_sim (n : nat) (a : vact) : Prop :=
+      frag_vact a = true -> forall q st d toks st' d' k, Suf (o_start st) -> Suf d ->
+      run_vact narrow widen o a q st d = (toks, Go st' d', false) ->
+      SND (c_vact n a q (cs_of st) (pos d) k) d = SND (k toks (cs_of st') (pos d')) d' /\ Suf d' /\ Suf (o_start st').
+    Definition vacts_sim (n : nat) (l : vacts) : Prop :=
+      frag_vacts l = true -> forall st d toks st' d' k, Suf (o_start st) -> Suf d ->
+      run_vacts narrow widen o l st d = (toks, Go st' d', false) ->
+      SND (c_vacts n l (cs_of st) (pos d) k) d = SND (k toks (cs_of st') (pos d')) d' /\ Suf d' /\ Suf (o_start st').
 
-    (* a child object scope: the body, then its destructor, then the parent is notified *)
-    Lemma obj_child_sim n body {P : Type} (notify : P -> P) (pst pst' : P) r2 sz toks d' kk :
-      (length data < n)%nat -> reqs_sim n body -> frag_reqs body = true -> Suf r2 ->
-      with_child (after_child_obj notify pst) (run_reqs narrow widen o body (mkO r2 sz 0 None) r2) = (toks, Go pst' d', false) ->
-      exists t, toks = KOpen :: t ++ [KClose] /\ pst' = notify pst /\
-        SND (c_reqs n body (mkC (pos r2) sz 0 None) (pos r2) (fun toks ccst p3 => c_close_obj n ccst p3 (fun p4 => kk toks p4))) r2 =
-        SND (kk t (pos d')) d' /\ Suf d'.
+    (* a child object scope: the size read, the body, then its destructor, then the parent is notified *)
+    Lemma obj_child_sim n body {P : Type} (notify : P -> P) (pst perr pst' : P) r1 toks d' kk :
+      (length data < n)%nat -> reqs_sim n body -> frag_reqs body = true -> Suf r1 ->
+      match read_map_size o r1 with
+      | ROk sz r2 => with_child (after_child_obj notify pst) (run_reqs narrow widen o body (mkO r2 sz 0 None) r2)
+      | RNot r2 => ([KNone], Go (notify pst) r2, false)
+      | RErr e => ([], raise_typed e perr r1, false)
+      | RFuel => ([], NoFuel, false)
+      end = (toks, Go pst' d', false) ->
+      pst' = notify pst /\ SND (c_obj_child n (c_reqs n body) kk) r1 = SND (kk toks (pos d')) d' /\ Suf d'.
     Proof.
-      intros Hn IHb Hf HS. unfold with_child.
+      intros Hn IHb Hf HS1. unfold c_obj_child. rewrite SND_call.
+      pose proof (str_op_suffix SM.RdMap r1 HS1 eq_refl) as HS. cbn [SM.str_op] in *.
+      destruct (read_map_size o r1) as [sz r2|r2|e|]; cbn [SM.rres_map] in *; try discriminate.
+      2:{ intros H. injection H as <- <- <-. auto. }
+      unfold with_child.
       destruct (run_reqs narrow widen o body (mkO r2 sz 0 None) r2) as [[t oc] f1] eqn:HB.
       unfold after_child_obj, after_child.
       destruct oc as [cst rest|e cst [rest|]| |].
       - destruct (close_obj cst rest) as [r f|] eqn:HC; [|discriminate].
         intros H. injection H as <- <- <- Hfl. apply orb_false_elim in Hfl. destruct Hfl as [-> ->].
-        exists t. split; [reflexivity|]. split; [reflexivity|].
+        split; [reflexivity|].
         destruct (IHb Hf (mkO r2 sz 0 None) r2 t cst rest
-          (fun toks ccst p3 => c_close_obj n ccst p3 (fun p4 => kk toks p4)) HS HS HB) as [E2 [S2 _]].
+          (fun toks ccst p3 => c_close_obj n ccst p3 (fun p4 => kk (KOpen :: toks ++ [KClose]) p4)) HS HS HB) as [E2 [S2 _]].
         change (cs_of (mkO r2 sz 0 None)) with (mkC (pos r2) sz 0 None) in E2. rewrite E2.
-        apply (close_obj_sim n cst rest r (fun p4 => kk t p4) Hn S2 HC).
+        apply (close_obj_sim n cst rest r (fun p4 => kk (KOpen :: t ++ [KClose]) p4) Hn S2 HC).
       - destruct (close_obj cst rest); discriminate.
       - discriminate.
       - discriminate.
       - discriminate.
     Qed.
 
-    Lemma arr_child_sim n body {P : Type} (notify : P -> P) (pst pst' : P) r2 sz toks d' kk :
-      (length data < n)%nat -> areqs_sim n body -> frag_areqs body = true -> Suf r2 ->
-      with_child (after_child_arr notify pst) (run_areqs narrow widen o body (mkA sz 0) r2) = (toks, Go pst' d', false) ->
-      exists t, toks = KOpen :: t ++ [KClose] /\ pst' = notify pst /\
-        SND (c_areqs n body (mkA sz 0) (pos r2) (fun toks cast p3 => c_close_arr n cast p3 (fun p4 => kk toks p4))) r2 =
-        SND (kk t (pos d')) d' /\ Suf d'.
+    Lemma arr_child_sim n body {P : Type} (notify : P -> P) (pst perr pst' : P) r1 toks d' kk :
+      (length data < n)%nat -> areqs_sim n body -> frag_areqs body = true -> Suf r1 ->
+      match read_array_size o r1 with
+      | ROk sz r2 => with_child (after_child_arr notify pst) (run_areqs narrow widen o body (mkA sz 0) r2)
+      | RNot r2 => ([KNone], Go (notify pst) r2, false)
+      | RErr e => ([], raise_typed e perr r1, false)
+      | RFuel => ([], NoFuel, false)
+      end = (toks, Go pst' d', false) ->
+      pst' = notify pst /\ SND (c_arr_child n (c_areqs n body) kk) r1 = SND (kk toks (pos d')) d' /\ Suf d'.
     Proof.
-      intros Hn IHb Hf HS. unfold with_child.
+      intros Hn IHb Hf HS1. unfold c_arr_child. rewrite SND_call.
+      pose proof (str_op_suffix SM.RdArr r1 HS1 eq_refl) as HS. cbn [SM.str_op] in *.
+      destruct (read_array_size o r1) as [sz r2|r2|e|]; cbn [SM.rres_map] in *; try discriminate.
+      2:{ intros H. injection H as <- <- <-. auto. }
+      unfold with_child.
       destruct (run_areqs narrow widen o body (mkA sz 0) r2) as [[t oc] f1] eqn:HB.
       unfold after_child_arr, after_child.
       destruct oc as [cst rest|e cst [rest|]| |].
       - destruct (close_arr cst rest) as [r f|] eqn:HC; [|discriminate].
         intros H. injection H as <- <- <- Hfl. apply orb_false_elim in Hfl. destruct Hfl as [-> ->].
-        exists t. split; [reflexivity|]. split; [reflexivity|].
+        split; [reflexivity|].
         destruct (IHb Hf (mkA sz 0) r2 t cst rest
-          (fun toks cast p3 => c_close_arr n cast p3 (fun p4 => kk toks p4)) HS HB) as [E2 S2].
+          (fun toks cast p3 => c_close_arr n cast p3 (fun p4 => kk (KOpen :: toks ++ [KClose]) p4)) HS HB) as [E2 S2].
         rewrite E2.
-        apply (close_arr_sim n cst rest r (fun p4 => kk t p4) Hn S2 HC).
+        apply (close_arr_sim n cst rest r (fun p4 => kk (KOpen :: t ++ [KClose]) p4) Hn S2 HC).
       - destruct (close_arr cst rest); discriminate.
       - discriminate.
       - discriminate.
       - discriminate.
     Qed.
 
-    Lemma run_req_get q t st d : run_req narrow widen o (RGet q t) st d = do_get narrow widen o (find_value_by_key narrow widen o) q t st d.
-    Proof. reflexivity. Qed.
-    Lemma run_req_obj q body st d : run_req narrow widen o (RObj q body) st d = do_obj o (find_value_by_key narrow widen o) (run_reqs narrow widen o body) q st d.
-    Proof. reflexivity. Qed.
-    Lemma run_req_arr q body st d : run_req narrow widen o (RArr q body) st d = do_arr o (find_value_by_key narrow widen o) (run_areqs narrow widen o body) q st d.
-    Proof. reflexivity. Qed.
+    (* the keyed operations *)
+    Lemma do_get_sim n q t st d toks st' d' k : (length data < n)%nat -> Suf (o_start st) -> Suf d ->
+      do_get narrow widen o (find_value_by_key narrow widen o) q t st d = (toks, Go st' d', false) ->
+      SND (c_do_get n q t (cs_of st) (pos d) k) d = SND (k toks (cs_of st') (pos d')) d' /\ Suf d' /\ Suf (o_start st').
+    Proof.
+      intros Hn Hs Hd. unfold do_get, lift_find, c_do_get.
+      destruct (find_value_by_key narrow widen o q st d) as [[[|] st1] r1|e [b0 st1] p| |] eqn:HF; try discriminate.
+      - destruct (find_sim n q st d true st1 r1
+          (fun b cst1 p1 => if b then c_read_target t (fun tk p2 => k [tk] (c_on_finish cst1) p2) else k [KFalse] cst1 p1) Hn Hs Hd HF) as [E1 [S1 O1]].
+        rewrite E1.
+        pose proof (read_target_sim t r1 (fun tk p2 => k [tk] (c_on_finish (cs_of st1)) p2) S1) as RT.
+        destruct (read_target narrow widen o t r1) as [v r2|r2|e|]; try discriminate.
+        + intros H. injection H as <- <- <-. destruct RT as [E2 S2]. rewrite E2. split; [reflexivity|]. split; [exact S2|].
+          cbn [on_finish_child o_start]. rewrite O1. exact Hs.
+        + intros H. injection H as <- <- <-. destruct RT as [E2 S2]. rewrite E2. split; [reflexivity|]. split; [exact S2|].
+          cbn [on_finish_child o_start]. rewrite O1. exact Hs.
+      - destruct (find_sim n q st d false st1 r1
+          (fun b cst1 p1 => if b then c_read_target t (fun tk p2 => k [tk] (c_on_finish cst1) p2) else k [KFalse] cst1 p1) Hn Hs Hd HF) as [E1 [S1 O1]].
+        rewrite E1. intros H. injection H as <- <- <-. split; [reflexivity|]. split; [exact S1|]. rewrite O1. exact Hs.
+    Qed.
+
+    Lemma do_obj_sim n body q st d toks st' d' k : (length data < n)%nat -> reqs_sim n body -> frag_reqs body = true ->
+      Suf (o_start st) -> Suf d ->
+      do_obj o (find_value_by_key narrow widen o) (run_reqs narrow widen o body) q st d = (toks, Go st' d', false) ->
+      SND (c_do_obj n (c_reqs n body) q (cs_of st) (pos d) k) d = SND (k toks (cs_of st') (pos d')) d' /\ Suf d' /\ Suf (o_start st').
+    Proof.
+      intros Hn IHb Hf Hs Hd. unfold do_obj, lift_find, c_do_obj.
+      destruct (find_value_by_key narrow widen o q st d) as [[[|] st1] r1|e [b0 st1] p| |] eqn:HF; try discriminate.
+      - match goal with |- _ -> SND (c_find n q _ _ ?kf) d = _ /\ _ =>
+          destruct (find_sim n q st d true st1 r1 kf Hn Hs Hd HF) as [E1 [S1 O1]] end.
+        rewrite E1. intros H.
+        destruct (obj_child_sim n body on_finish_child st1 st1 st' r1 toks d'
+          (fun toks p4 => k toks (c_on_finish (cs_of st1)) p4) Hn IHb Hf S1 H) as [-> [E2 S2]].
+        rewrite E2. split; [reflexivity|]. split; [exact S2|]. cbn [on_finish_child o_start]. rewrite O1. exact Hs.
+      - match goal with |- _ -> SND (c_find n q _ _ ?kf) d = _ /\ _ =>
+          destruct (find_sim n q st d false st1 r1 kf Hn Hs Hd HF) as [E1 [S1 O1]] end.
+        rewrite E1. intros H. injection H as <- <- <-. split; [reflexivity|]. split; [exact S1|]. rewrite O1. exact Hs.
+    Qed.
+
+    Lemma do_arr_sim n body q st d toks st' d' k : (length data < n)%nat -> areqs_sim n body -> frag_areqs body = true ->
+      Suf (o_start st) -> Suf d ->
+      do_arr o (find_value_by_key narrow widen o) (run_areqs narrow widen o body) q st d = (toks, Go st' d', false) ->
+      SND (c_do_arr n (c_areqs n body) q (cs_of st) (pos d) k) d = SND (k toks (cs_of st') (pos d')) d' /\ Suf d' /\ Suf (o_start st').
+    Proof.
+      intros Hn IHb Hf Hs Hd. unfold do_arr, lift_find, c_do_arr.
+      destruct (find_value_by_key narrow widen o q st d) as [[[|] st1] r1|e [b0 st1] p| |] eqn:HF; try discriminate.
+      - match goal with |- _ -> SND (c_find n q _ _ ?kf) d = _ /\ _ =>
+          destruct (find_sim n q st d true st1 r1 kf Hn Hs Hd HF) as [E1 [S1 O1]] end.
+        rewrite E1. intros H.
+        destruct (arr_child_sim n body on_finish_child st1 st1 st' r1 toks d'
+          (fun toks p4 => k toks (c_on_finish (cs_of st1)) p4) Hn IHb Hf S1 H) as [-> [E2 S2]].
+        rewrite E2. split; [reflexivity|]. split; [exact S2|]. cbn [on_finish_child o_start]. rewrite O1. exact Hs.
+      - match goal with |- _ -> SND (c_find n q _ _ ?kf) d = _ /\ _ =>
+          destruct (find_sim n q st d false st1 r1 kf Hn Hs Hd HF) as [E1 [S1 O1]] end.
+        rewrite E1. intros H. injection H as <- <- <-. split; [reflexivity|]. split; [exact S1|]. rewrite O1. exact Hs.
+    Qed.
+
     Lemma run_req_visit st d : run_req narrow widen o RVisit st d =
       match reset_key st d with
       | Go st1 _ => plain (visit_loop narrow widen o (S (length (o_start st1))) (set_index st1 0) (o_start st1) [])
+      | other => ([], other, false)
+      end.
+    Proof. reflexivity. Qed.
+    Lemma run_req_each acts st d : run_req narrow widen o (REach acts) st d =
+      match reset_key st d with
+      | Go st1 _ => run_vacts narrow widen o acts (set_index st1 0) (o_start st1)
       | other => ([], other, false)
       end.
     Proof. reflexivity. Qed.
@@ -587,40 +684,36 @@ Section ClientProofs.
            | RFuel => ([], NoFuel, false)
            end.
     Proof. reflexivity. Qed.
+    Lemma run_vacts_nil st d : run_vacts narrow widen o VANil st d =
+      match visit_loop narrow widen o (S (length (o_start st))) st d [] with (_, oc) => ([], oc, false) end.
+    Proof. reflexivity. Qed.
+    Lemma run_vacts_cons a acts st d : run_vacts narrow widen o (VACons a acts) st d =
+      if o_index st <? o_size st then
+        match read_key narrow widen o d with
+        | KOk k r1 =>
+          match run_vact narrow widen o a (qkey_of_skey k) (set_key st (Some k)) r1 with
+          | (t1, Go st2 r2, f1) =>
+            match reset_key st2 r2 with
+            | Go st3 r3 => let '(t2, oc, f2) := run_vacts narrow widen o acts st3 r3 in (t1 ++ t2, oc, f1 || f2)
+            | other => (t1, other, f1)
+            end
+          | failed => failed
+          end
+        | KRaise e true => ([], Raise (SE e) st (Some d), false)
+        | KRaise e false => ([], Raise (SE e) (set_key st (Some slot_written)) None, false)
+        | KStale => ([], Stale, false)
+        | KFuel => ([], NoFuel, false)
+        end
+      else ([], Go st d, false).
+    Proof. reflexivity. Qed.
 
-    Lemma c_req_get n q t cst p k : c_req n (RGet q t) cst p k =
-      c_find n q cst p (fun b cst1 p1 =>
-        if b then c_read_target t (fun tk p2 => k [tk] (c_on_finish cst1) p2) else k [KFalse] cst1 p1).
-    Proof. reflexivity. Qed.
-    Lemma c_req_obj n q body cst p k : c_req n (RObj q body) cst p k =
-      c_find n q cst p (fun b cst1 p1 =>
-        if b then
-          call SM.RdMap
-            (fun v p2 => match v with
-                         | SM.VNum sz =>
-                           c_reqs n body (mkC p2 sz 0 None) p2 (fun toks ccst p3 =>
-                             c_close_obj n ccst p3 (fun p4 => k (KOpen :: toks ++ [KClose]) (c_on_finish cst1) p4))
-                         | _ => fail
-                         end)
-            (fun p2 => k [KNone] (c_on_finish cst1) p2)
-        else k [KNone] cst1 p1).
-    Proof. reflexivity. Qed.
-    Lemma c_req_arr n q body cst p k : c_req n (RArr q body) cst p k =
-      c_find n q cst p (fun b cst1 p1 =>
-        if b then
-          call SM.RdArr
-            (fun v p2 => match v with
-                         | SM.VNum sz =>
-                           c_areqs n body (mkA sz 0) p2 (fun toks cast p3 =>
-                             c_close_arr n cast p3 (fun p4 => k (KOpen :: toks ++ [KClose]) (c_on_finish cst1) p4))
-                         | _ => fail
-                         end)
-            (fun p2 => k [KNone] (c_on_finish cst1) p2)
-        else k [KNone] cst1 p1).
-    Proof. reflexivity. Qed.
     Lemma c_req_visit n cst p k : c_req n RVisit cst p k =
       c_reset_key cst p (fun cst1 p1 =>
         c_seek_if true (c_start cst1) p1 (fun p' => c_visit_loop n (c_set_index cst1 0) p' [] k)).
+    Proof. reflexivity. Qed.
+    Lemma c_req_each n acts cst p k : c_req n (REach acts) cst p k =
+      c_reset_key cst p (fun cst1 p1 =>
+        c_seek_if true (c_start cst1) p1 (fun p' => c_vacts n acts (c_set_index cst1 0) p' k)).
     Proof. reflexivity. Qed.
     Lemma c_reqs_cons n r l cst p k : c_reqs n (RCons r l) cst p k =
       c_req n r cst p (fun t1 cst1 p1 => c_reqs n l cst1 p1 (fun t2 cst2 p2 => k (t1 ++ t2) cst2 p2)).
@@ -634,84 +727,35 @@ Section ClientProofs.
     Proof. reflexivity. Qed.
     Lemma c_areq_obj n body ast p k : c_areq n (AObj body) ast p k =
       if a_index ast =? a_size ast then fail
-      else call SM.RdMap
-            (fun v p2 => match v with
-                         | SM.VNum sz =>
-                           c_reqs n body (mkC p2 sz 0 None) p2 (fun toks ccst p3 =>
-                             c_close_obj n ccst p3 (fun p4 => k (KOpen :: toks ++ [KClose]) (mkA (a_size ast) (a_index ast + 1)) p4))
-                         | _ => fail
-                         end)
-            (fun p2 => k [KNone] (mkA (a_size ast) (a_index ast + 1)) p2).
+      else c_obj_child n (c_reqs n body) (fun toks p4 => k toks (mkA (a_size ast) (a_index ast + 1)) p4).
     Proof. reflexivity. Qed.
     Lemma c_areq_arr n body ast p k : c_areq n (AArr body) ast p k =
       if a_index ast =? a_size ast then fail
-      else call SM.RdArr
-            (fun v p2 => match v with
-                         | SM.VNum sz =>
-                           c_areqs n body (mkA sz 0) p2 (fun toks cast p3 =>
-                             c_close_arr n cast p3 (fun p4 => k (KOpen :: toks ++ [KClose]) (mkA (a_size ast) (a_index ast + 1)) p4))
-                         | _ => fail
-                         end)
-            (fun p2 => k [KNone] (mkA (a_size ast) (a_index ast + 1)) p2).
+      else c_arr_child n (c_areqs n body) (fun toks p4 => k toks (mkA (a_size ast) (a_index ast + 1)) p4).
+    Proof. reflexivity. Qed.
+    Lemma c_vacts_nil n cst p k : c_vacts n VANil cst p k = c_visit_loop n cst p [] (fun _ cst' p' => k [] cst' p').
+    Proof. reflexivity. Qed.
+    Lemma c_vacts_cons n a acts cst p k : c_vacts n (VACons a acts) cst p k =
+      if c_index cst <? c_size cst then
+        c_read_key (fun key p1 =>
+          c_vact n a (qkey_of_skey key) (c_set_key cst (Some key)) p1 (fun t1 cst2 p2 =>
+            c_reset_key cst2 p2 (fun cst3 p3 =>
+              c_vacts n acts cst3 p3 (fun t2 cst4 p4 => k (t1 ++ t2) cst4 p4))))
+      else k [] cst p.
     Proof. reflexivity. Qed.
 
     Lemma programs_sim n : (length data < n)%nat ->
-      (forall r, req_sim n r) /\ (forall l, reqs_sim n l) /\ (forall a, areq_sim n a) /\ (forall l, areqs_sim n l).
+      (forall r, req_sim n r) /\ (forall l, reqs_sim n l) /\ (forall a, areq_sim n a) /\ (forall l, areqs_sim n l)
+      /\ (forall a, vact_sim n a) /\ (forall l, vacts_sim n l).
     Proof.
       intros Hn.
-      assert (HH : (forall r, req_sim n r) /\ (forall l, reqs_sim n l) /\ (forall a, areq_sim n a) /\ (forall l, areqs_sim n l)
-                   /\ (forall a : vact, True) /\ (forall l : vacts, True)).
-      2:{ destruct HH as [H1 [H2 [H3 [H4 _]]]]. split; [exact H1|]. split; [exact H2|]. split; [exact H3 | exact H4]. }
-      apply program_mutind; try (intros; exact I); try (intros; intros Hf; discriminate Hf).
+      apply program_mutind; try (intros; intros Hf; discriminate Hf).
       - (* RGet *)
-        intros q t _ st d toks st' d' k Hs Hd. rewrite run_req_get, c_req_get. unfold do_get, lift_find.
-        destruct (find_value_by_key narrow widen o q st d) as [[[|] st1] r1|e [b0 st1] p| |] eqn:HF; try discriminate.
-        + destruct (find_sim n q st d true st1 r1
-            (fun b cst1 p1 => if b then c_read_target t (fun tk p2 => k [tk] (c_on_finish cst1) p2) else k [KFalse] cst1 p1) Hn Hs Hd HF) as [E1 [S1 O1]].
-          rewrite E1.
-          pose proof (read_target_sim t r1 (fun tk p2 => k [tk] (c_on_finish (cs_of st1)) p2) S1) as RT.
-          destruct (read_target narrow widen o t r1) as [v r2|r2|e|]; try discriminate.
-          * intros H. injection H as <- <- <-. destruct RT as [E2 S2]. rewrite E2. split; [reflexivity|]. split; [exact S2|].
-            cbn [on_finish_child o_start]. rewrite O1. exact Hs.
-          * intros H. injection H as <- <- <-. destruct RT as [E2 S2]. rewrite E2. split; [reflexivity|]. split; [exact S2|].
-            cbn [on_finish_child o_start]. rewrite O1. exact Hs.
-        + destruct (find_sim n q st d false st1 r1
-            (fun b cst1 p1 => if b then c_read_target t (fun tk p2 => k [tk] (c_on_finish cst1) p2) else k [KFalse] cst1 p1) Hn Hs Hd HF) as [E1 [S1 O1]].
-          rewrite E1. intros H. injection H as <- <- <-. split; [reflexivity|]. split; [exact S1|]. rewrite O1. exact Hs.
+        intros q t _ st d toks st' d' k Hs Hd. apply (do_get_sim n q t st d toks st' d' k Hn Hs Hd).
       - (* RObj *)
-        intros q body IHb Hf st d toks st' d' k Hs Hd. rewrite run_req_obj, c_req_obj. unfold do_obj, lift_find.
-        cbn [frag_req] in Hf.
-        destruct (find_value_by_key narrow widen o q st d) as [[[|] st1] r1|e [b0 st1] p| |] eqn:HF; try discriminate.
-        + match goal with |- _ -> SND (c_find n q _ _ ?kf) d = _ /\ _ =>
-            destruct (find_sim n q st d true st1 r1 kf Hn Hs Hd HF) as [E1 [S1 O1]] end.
-          rewrite E1. rewrite SND_call.
-          pose proof (str_op_suffix SM.RdMap r1 S1 eq_refl) as HSf. cbn [SM.str_op] in *.
-          destruct (read_map_size o r1) as [sz r2|r2|e|]; cbn [SM.rres_map] in *; try discriminate.
-          * intros H.
-            destruct (obj_child_sim n body on_finish_child st1 st' r2 sz toks d'
-              (fun toks p4 => k (KOpen :: toks ++ [KClose]) (c_on_finish (cs_of st1)) p4) Hn IHb Hf HSf H) as [t [-> [-> [E2 S2]]]].
-            cbv beta in E2. rewrite E2. split; [reflexivity|]. split; [exact S2|]. cbn [on_finish_child o_start]. rewrite O1. exact Hs.
-          * intros H. injection H as <- <- <-. split; [reflexivity|]. split; [exact HSf|]. cbn [on_finish_child o_start]. rewrite O1. exact Hs.
-        + match goal with |- _ -> SND (c_find n q _ _ ?kf) d = _ /\ _ =>
-            destruct (find_sim n q st d false st1 r1 kf Hn Hs Hd HF) as [E1 [S1 O1]] end.
-          rewrite E1. intros H. injection H as <- <- <-. split; [reflexivity|]. split; [exact S1|]. rewrite O1. exact Hs.
+        intros q body IHb Hf st d toks st' d' k Hs Hd. apply (do_obj_sim n body q st d toks st' d' k Hn IHb Hf Hs Hd).
       - (* RArr *)
-        intros q body IHb Hf st d toks st' d' k Hs Hd. rewrite run_req_arr, c_req_arr. unfold do_arr, lift_find.
-        cbn [frag_req] in Hf.
-        destruct (find_value_by_key narrow widen o q st d) as [[[|] st1] r1|e [b0 st1] p| |] eqn:HF; try discriminate.
-        + match goal with |- _ -> SND (c_find n q _ _ ?kf) d = _ /\ _ =>
-            destruct (find_sim n q st d true st1 r1 kf Hn Hs Hd HF) as [E1 [S1 O1]] end.
-          rewrite E1. rewrite SND_call.
-          pose proof (str_op_suffix SM.RdArr r1 S1 eq_refl) as HSf. cbn [SM.str_op] in *.
-          destruct (read_array_size o r1) as [sz r2|r2|e|]; cbn [SM.rres_map] in *; try discriminate.
-          * intros H.
-            destruct (arr_child_sim n body on_finish_child st1 st' r2 sz toks d'
-              (fun toks p4 => k (KOpen :: toks ++ [KClose]) (c_on_finish (cs_of st1)) p4) Hn IHb Hf HSf H) as [t [-> [-> [E2 S2]]]].
-            cbv beta in E2. rewrite E2. split; [reflexivity|]. split; [exact S2|]. cbn [on_finish_child o_start]. rewrite O1. exact Hs.
-          * intros H. injection H as <- <- <-. split; [reflexivity|]. split; [exact HSf|]. cbn [on_finish_child o_start]. rewrite O1. exact Hs.
-        + match goal with |- _ -> SND (c_find n q _ _ ?kf) d = _ /\ _ =>
-            destruct (find_sim n q st d false st1 r1 kf Hn Hs Hd HF) as [E1 [S1 O1]] end.
-          rewrite E1. intros H. injection H as <- <- <-. split; [reflexivity|]. split; [exact S1|]. rewrite O1. exact Hs.
+        intros q body IHb Hf st d toks st' d' k Hs Hd. apply (do_arr_sim n body q st d toks st' d' k Hn IHb Hf Hs Hd).
       - (* RVisit *)
         intros _ st d toks st' d' k Hs Hd. rewrite run_req_visit, c_req_visit.
         destruct (reset_key st d) as [st1 d1|e s p| |] eqn:HR; try discriminate.
@@ -726,6 +770,16 @@ Section ClientProofs.
           [pose proof (suf_len _ Hs1); lia | exact Hs1 | exact HV |].
         change (cs_of (set_index st1 0)) with (c_set_index (cs_of st1) 0) in E2.
         split; [exact E2|]. split; [exact S2|]. rewrite O2. cbn [set_index o_start]. exact Hs1.
+      - (* REach *)
+        intros acts IHa Hf st d toks st' d' k Hs Hd. cbn [frag_req] in Hf. rewrite run_req_each, c_req_each.
+        destruct (reset_key st d) as [st1 d1|e s p| |] eqn:HR; try discriminate.
+        destruct (reset_key_sim st d st1 d1
+          (fun cst1 p1 => c_seek_if true (c_start cst1) p1 (fun p' => c_vacts n acts (c_set_index cst1 0) p' k)) Hd HR) as [E1 [S1 O1]].
+        rewrite E1. cbn [cs_of c_start].
+        assert (Hs1 : Suf (o_start st1)) by (rewrite O1; exact Hs).
+        rewrite (seek_sim true (o_start st1) d1 _ Hs1 S1).
+        intros H.
+        apply (IHa Hf (set_index st1 0) (o_start st1) toks st' d' k Hs1 Hs1 H).
       - (* RNil *)
         intros _ st d toks st' d' k Hs Hd H. cbn [run_reqs] in H. injection H as <- <- <-. cbn [c_reqs]. auto.
       - (* RCons *)
@@ -746,26 +800,16 @@ Section ClientProofs.
           intros H; injection H as <- <- <-; exact RT.
       - (* AObj *)
         intros body IHb Hf st d toks st' d' k Hd. rewrite run_areq_obj, c_areq_obj. cbn [frag_areq] in Hf.
-        destruct (a_index st =? a_size st); [discriminate|].
-        rewrite SND_call.
-        pose proof (str_op_suffix SM.RdMap d Hd eq_refl) as HSf. cbn [SM.str_op] in *.
-        destruct (read_map_size o d) as [sz r2|r2|e|]; cbn [SM.rres_map] in *; try discriminate.
-        + intros H.
-          destruct (obj_child_sim n body (fun s : ascope => s) (mkA (a_size st) (a_index st + 1)) st' r2 sz toks d'
-            (fun toks p4 => k (KOpen :: toks ++ [KClose]) (mkA (a_size st) (a_index st + 1)) p4) Hn IHb Hf HSf H) as [t [-> [-> [E2 S2]]]].
-          cbv beta in E2. rewrite E2. split; [reflexivity | exact S2].
-        + intros H. injection H as <- <- <-. split; [reflexivity | exact HSf].
+        destruct (a_index st =? a_size st); [discriminate|]. intros H.
+        destruct (obj_child_sim n body (fun s : ascope => s) (mkA (a_size st) (a_index st + 1)) st st' d toks d'
+          (fun toks p4 => k toks (mkA (a_size st) (a_index st + 1)) p4) Hn IHb Hf Hd H) as [-> [E2 S2]].
+        rewrite E2. split; [reflexivity | exact S2].
       - (* AArr *)
         intros body IHb Hf st d toks st' d' k Hd. rewrite run_areq_arr, c_areq_arr. cbn [frag_areq] in Hf.
-        destruct (a_index st =? a_size st); [discriminate|].
-        rewrite SND_call.
-        pose proof (str_op_suffix SM.RdArr d Hd eq_refl) as HSf. cbn [SM.str_op] in *.
-        destruct (read_array_size o d) as [sz r2|r2|e|]; cbn [SM.rres_map] in *; try discriminate.
-        + intros H.
-          destruct (arr_child_sim n body (fun s : ascope => s) (mkA (a_size st) (a_index st + 1)) st' r2 sz toks d'
-            (fun toks p4 => k (KOpen :: toks ++ [KClose]) (mkA (a_size st) (a_index st + 1)) p4) Hn IHb Hf HSf H) as [t [-> [-> [E2 S2]]]].
-          cbv beta in E2. rewrite E2. split; [reflexivity | exact S2].
-        + intros H. injection H as <- <- <-. split; [reflexivity | exact HSf].
+        destruct (a_index st =? a_size st); [discriminate|]. intros H.
+        destruct (arr_child_sim n body (fun s : ascope => s) (mkA (a_size st) (a_index st + 1)) st st' d toks d'
+          (fun toks p4 => k toks (mkA (a_size st) (a_index st + 1)) p4) Hn IHb Hf Hd H) as [-> [E2 S2]].
+        rewrite E2. split; [reflexivity | exact S2].
       - (* AEnd *)
         intros _ st d toks st' d' k Hd H. cbn [run_areq] in H. injection H as <- <- <-. cbn [c_areq]. auto.
       - (* ANil *)
@@ -780,6 +824,41 @@ Section ClientProofs.
         destruct (IHa Hf1 st d t1 st1 r1 (fun t1 ast1 p1 => c_areqs n l ast1 p1 (fun t2 ast2 p2 => k (t1 ++ t2) ast2 p2)) Hd H1) as [E1 S1].
         rewrite E1.
         apply (IHl Hf2 st1 r1 t2 st' d' (fun t2 ast2 p2 => k (t1 ++ t2) ast2 p2) S1 H2).
+      - (* VSkip *)
+        intros _ q st d toks st' d' k Hs Hd H. cbn [run_vact] in H. injection H as <- <- <-. cbn [c_vact]. auto.
+      - (* VGet *)
+        intros t _ q st d toks st' d' k Hs Hd. apply (do_get_sim n q t st d toks st' d' k Hn Hs Hd).
+      - (* VObj *)
+        intros body IHb Hf q st d toks st' d' k Hs Hd. apply (do_obj_sim n body q st d toks st' d' k Hn IHb Hf Hs Hd).
+      - (* VArr *)
+        intros body IHb Hf q st d toks st' d' k Hs Hd. apply (do_arr_sim n body q st d toks st' d' k Hn IHb Hf Hs Hd).
+      - (* VANil *)
+        intros _ st d toks st' d' k Hs Hd. rewrite run_vacts_nil, c_vacts_nil.
+        destruct (visit_loop narrow widen o (S (length (o_start st))) st d []) as [t oc] eqn:HV.
+        intros H. injection H as <- ->.
+        destruct (visit_loop_sim (S (length (o_start st))) n st d [] t st' d' (fun _ cst' p' => k [] cst' p')) as [E2 [S2 O2]];
+          [pose proof (suf_len _ Hs); lia | exact Hd | exact HV |].
+        split; [exact E2|]. split; [exact S2|]. rewrite O2. exact Hs.
+      - (* VACons *)
+        intros a IHa acts IHl Hf st d toks st' d' k Hs Hd. cbn [frag_vacts] in Hf. apply andb_true_iff in Hf. destruct Hf as [Hf1 Hf2].
+        rewrite run_vacts_cons, c_vacts_cons. cbn [cs_of c_index c_size].
+        destruct (o_index st <? o_size st); [|intros H; injection H as <- <- <-; auto].
+        destruct (read_key narrow widen o d) as [key r1|e [|]| |] eqn:HK1; try discriminate.
+        match goal with |- _ -> SND (c_read_key ?kf) d = _ /\ _ =>
+          destruct (read_key_sim d key r1 kf Hd HK1) as [E1 S1] end.
+        rewrite E1.
+        destruct (run_vact narrow widen o a (qkey_of_skey key) (set_key st (Some key)) r1) as [[t1 oc1] f1] eqn:H1.
+        destruct oc1 as [st2 r2|e s p| |]; try discriminate.
+        destruct (reset_key st2 r2) as [st3 r3|e s p| |] eqn:HR; try discriminate.
+        destruct (run_vacts narrow widen o acts st3 r3) as [[t2 oc2] f2] eqn:H2.
+        intros H. injection H as <- -> Hfl. apply orb_false_elim in Hfl. destruct Hfl as [-> ->].
+        destruct (IHa Hf1 (qkey_of_skey key) (set_key st (Some key)) r1 t1 st2 r2
+          (fun t1 cst2 p2 => c_reset_key cst2 p2 (fun cst3 p3 => c_vacts n acts cst3 p3 (fun t2 cst4 p4 => k (t1 ++ t2) cst4 p4)))
+          Hs S1 H1) as [E2 [S2 O2]].
+        change (cs_of (set_key st (Some key))) with (c_set_key (cs_of st) (Some key)) in E2. rewrite E2.
+        destruct (reset_key_sim st2 r2 st3 r3 (fun cst3 p3 => c_vacts n acts cst3 p3 (fun t2 cst4 p4 => k (t1 ++ t2) cst4 p4)) S2 HR) as [E3 [S3 O3]].
+        rewrite E3.
+        apply (IHl Hf2 st3 r3 t2 st' d' (fun t2 cst4 p4 => k (t1 ++ t2) cst4 p4)); [rewrite O3; exact O2 | exact S3 | exact H2].
     Qed.
 
     (* the client form and the direct model coincide *)
@@ -787,18 +866,21 @@ Section ClientProofs.
       run_obj_root narrow widen o data h = Done toks rest false ->
       snd (SM.str_client_run narrow widen data o (scope_client n h)) = Some (Some (toks, pos rest, false)).
     Proof.
-      intros Hn Hf. unfold SM.str_client_run. change (snd (SM.str_client narrow widen data o (scope_client n h) [] data)) with (SND (scope_client n h) data).
-      unfold run_obj_root, scope_client. rewrite SND_call.
-      pose proof (str_op_suffix SM.RdMap data (SP.suffix_data data) eq_refl) as HSf. cbn [SM.str_op] in *.
-      destruct (read_map_size o data) as [sz body|r|e|]; cbn [SM.rres_map] in *; try discriminate.
-      - destruct (with_child (after_child_obj (fun u : unit => u) tt) (run_reqs narrow widen o h (mkO body sz 0 None) body)) as [[t oc] fl] eqn:HW.
-        destruct oc as [u r|e u p| |]; cbn [finish_root]; try discriminate.
-        intros H. injection H as -> -> ->.
-        destruct (programs_sim n Hn) as [_ [Hreqs _]].
-        destruct (obj_child_sim n h (fun u : unit => u) tt u body sz toks rest
-          (fun toks p4 => SM.CRet (Some (KOpen :: toks ++ [KClose], p4, false))) Hn (Hreqs h) Hf HSf HW) as [t' [-> [_ [E2 _]]]].
-        cbv beta in E2. rewrite E2. reflexivity.
-      - intros H. injection H as <- <-. reflexivity.
+      intros Hn Hf Hrun. unfold SM.str_client_run. change (snd (SM.str_client narrow widen data o (scope_client n h) [] data)) with (SND (scope_client n h) data).
+      destruct (programs_sim n Hn) as [_ [Hreqs _]].
+      assert (HW : match read_map_size o data with
+                   | ROk sz r2 => with_child (after_child_obj (fun u : unit => u) tt) (run_reqs narrow widen o h (mkO r2 sz 0 None) r2)
+                   | RNot r2 => ([KNone], Go tt r2, false)
+                   | RErr e => ([], raise_typed e tt data, false)
+                   | RFuel => ([], NoFuel, false)
+                   end = (toks, Go tt rest, false)).
+      { unfold run_obj_root in Hrun. destruct (read_map_size o data) as [sz body|r|e|]; try discriminate.
+        - destruct (with_child (after_child_obj (fun u : unit => u) tt) (run_reqs narrow widen o h (mkO body sz 0 None) body)) as [[t oc] fl].
+          destruct oc as [[] r|e u p| |]; cbn [finish_root] in Hrun; try discriminate. injection Hrun as -> -> ->. reflexivity.
+        - injection Hrun as <- <-. reflexivity. }
+      destruct (obj_child_sim n h (fun u : unit => u) tt tt tt data toks rest
+        (fun toks p4 => SM.CRet (Some (toks, p4, false))) Hn (Hreqs h) Hf (SP.suffix_data data) HW) as [_ [E2 _]].
+      unfold scope_client. rewrite E2. reflexivity.
     Qed.
   End WithReader.
 
@@ -921,16 +1003,17 @@ Section ClientProofs.
   Definition areqs_oks (n : nat) (l : areqs) : Prop :=
     forall ast p k d, Lpos p ->
     (forall toks ast' p' d', Lpos p' -> OKS (k toks ast' p') d') -> OKS (c_areqs n l ast p k) d.
+  Definition vact_oks (n : nat) (a : vact) : Prop :=
+    forall q cst p k d, Lpos (c_start cst) -> Lpos p ->
+    (forall toks cst' p' d', Lpos (c_start cst') -> Lpos p' -> OKS (k toks cst' p') d') -> OKS (c_vact n a q cst p k) d.
+  Definition vacts_oks (n : nat) (l : vacts) : Prop :=
+    forall cst p k d, Lpos (c_start cst) -> Lpos p ->
+    (forall toks cst' p' d', Lpos (c_start cst') -> Lpos p' -> OKS (k toks cst' p') d') -> OKS (c_vacts n l cst p k) d.
 
   Lemma oks_obj_child n body kk d : reqs_oks n body -> (forall toks p' d', Lpos p' -> OKS (kk toks p') d') ->
-    OKS (call SM.RdMap
-          (fun v p2 => match v with
-                       | SM.VNum sz => c_reqs n body (mkC p2 sz 0 None) p2 (fun toks ccst p3 => c_close_obj n ccst p3 (fun p4 => kk (KOpen :: toks ++ [KClose]) p4))
-                       | _ => fail
-                       end)
-          (fun p2 => kk [KNone] p2)) d.
+    OKS (c_obj_child n (c_reqs n body) kk) d.
   Proof.
-    intros IHb H. apply OKS_call; [reflexivity | |].
+    intros IHb H. unfold c_obj_child. apply OKS_call; [reflexivity | |].
     - intros v p2 d2 Hp2. destruct v; try apply OKS_fail.
       apply IHb; [exact Hp2 | exact Hp2 |]. intros toks ccst p3 d3 _ Hp3.
       apply oks_close_obj; [exact Hp3|]. intros p4 d4 Hp4. apply H; exact Hp4.
@@ -938,73 +1021,66 @@ Section ClientProofs.
   Qed.
 
   Lemma oks_arr_child n body kk d : areqs_oks n body -> (forall toks p' d', Lpos p' -> OKS (kk toks p') d') ->
-    OKS (call SM.RdArr
-          (fun v p2 => match v with
-                       | SM.VNum sz => c_areqs n body (mkA sz 0) p2 (fun toks cast p3 => c_close_arr n cast p3 (fun p4 => kk (KOpen :: toks ++ [KClose]) p4))
-                       | _ => fail
-                       end)
-          (fun p2 => kk [KNone] p2)) d.
+    OKS (c_arr_child n (c_areqs n body) kk) d.
   Proof.
-    intros IHb H. apply OKS_call; [reflexivity | |].
+    intros IHb H. unfold c_arr_child. apply OKS_call; [reflexivity | |].
     - intros v p2 d2 Hp2. destruct v; try apply OKS_fail.
       apply IHb; [exact Hp2 |]. intros toks cast p3 d3 Hp3.
       apply oks_close_arr; [exact Hp3|]. intros p4 d4 Hp4. apply H; exact Hp4.
     - intros p2 d2 Hp2. apply H; exact Hp2.
   Qed.
 
-  Lemma programs_oks n : (forall r, req_oks n r) /\ (forall l, reqs_oks n l).
+  Lemma oks_do_get n q t cst p k d : Lpos (c_start cst) -> Lpos p ->
+    (forall toks cst' p' d', Lpos (c_start cst') -> Lpos p' -> OKS (k toks cst' p') d') -> OKS (c_do_get n q t cst p k) d.
   Proof.
-    assert (HH : (forall r, req_oks n r) /\ (forall l, reqs_oks n l) /\ (forall a, areq_oks n a) /\ (forall l, areqs_oks n l)
-                 /\ (forall a : vact, True) /\ (forall l : vacts, True)).
-    2:{ destruct HH as [H1 [H2 _]]. split; assumption. }
-    apply program_mutind; try (intros; exact I);
-      try (intros; intros cst p k d _ _ _; apply OKS_fail); try (intros; intros ast p k d _ _; apply OKS_fail).
-    - (* RGet *)
-      intros q t cst p k d Hc Hp H. cbn [c_req]. apply oks_find; [exact Hc | exact Hp |].
-      intros b cst' p' d' Hs Hp'. destruct b.
-      + apply oks_read_target. intros tk p2 d2 Hp2. apply H; [cbn [c_on_finish c_start]; rewrite Hs; exact Hc | exact Hp2].
-      + apply H; [rewrite Hs; exact Hc | exact Hp'].
-    - (* RObj *)
-      intros q body IHb cst p k d Hc Hp H.
-      change (c_req n (RObj q body) cst p k) with
-        (c_find n q cst p (fun b cst1 p1 =>
-          if b then
-            call SM.RdMap
-              (fun v p2 => match v with
-                           | SM.VNum sz =>
-                             c_reqs n body (mkC p2 sz 0 None) p2 (fun toks ccst p3 =>
-                               c_close_obj n ccst p3 (fun p4 => (fun toks p4 => k toks (c_on_finish cst1) p4) (KOpen :: toks ++ [KClose]) p4))
-                           | _ => fail
-                           end)
-              (fun p2 => (fun toks p4 => k toks (c_on_finish cst1) p4) [KNone] p2)
-          else k [KNone] cst1 p1)).
-      apply oks_find; [exact Hc | exact Hp |].
-      intros b cst' p' d' Hs Hp'. destruct b.
-      + apply (oks_obj_child n body (fun toks p4 => k toks (c_on_finish cst') p4) d' IHb). intros toks p4 d4 Hp4. apply H; [cbn [c_on_finish c_start]; rewrite Hs; exact Hc | exact Hp4].
-      + apply H; [rewrite Hs; exact Hc | exact Hp'].
-    - (* RArr *)
-      intros q body IHb cst p k d Hc Hp H.
-      change (c_req n (RArr q body) cst p k) with
-        (c_find n q cst p (fun b cst1 p1 =>
-          if b then
-            call SM.RdArr
-              (fun v p2 => match v with
-                           | SM.VNum sz =>
-                             c_areqs n body (mkA sz 0) p2 (fun toks cast p3 =>
-                               c_close_arr n cast p3 (fun p4 => (fun toks p4 => k toks (c_on_finish cst1) p4) (KOpen :: toks ++ [KClose]) p4))
-                           | _ => fail
-                           end)
-              (fun p2 => (fun toks p4 => k toks (c_on_finish cst1) p4) [KNone] p2)
-          else k [KNone] cst1 p1)).
-      apply oks_find; [exact Hc | exact Hp |].
-      intros b cst' p' d' Hs Hp'. destruct b.
-      + apply (oks_arr_child n body (fun toks p4 => k toks (c_on_finish cst') p4) d' IHb). intros toks p4 d4 Hp4. apply H; [cbn [c_on_finish c_start]; rewrite Hs; exact Hc | exact Hp4].
-      + apply H; [rewrite Hs; exact Hc | exact Hp'].
+    intros Hc Hp H. unfold c_do_get. apply oks_find; [exact Hc | exact Hp |].
+    intros b cst' p' d' Hs Hp'. destruct b.
+    - apply oks_read_target. intros tk p2 d2 Hp2. apply H; [cbn [c_on_finish c_start]; rewrite Hs; exact Hc | exact Hp2].
+    - apply H; [rewrite Hs; exact Hc | exact Hp'].
+  Qed.
+
+  Lemma oks_do_obj n body q cst p k d : reqs_oks n body -> Lpos (c_start cst) -> Lpos p ->
+    (forall toks cst' p' d', Lpos (c_start cst') -> Lpos p' -> OKS (k toks cst' p') d') -> OKS (c_do_obj n (c_reqs n body) q cst p k) d.
+  Proof.
+    intros IHb Hc Hp H. unfold c_do_obj. apply oks_find; [exact Hc | exact Hp |].
+    intros b cst' p' d' Hs Hp'. destruct b.
+    - apply (oks_obj_child n body (fun toks p4 => k toks (c_on_finish cst') p4) d' IHb).
+      intros toks p4 d4 Hp4. apply H; [cbn [c_on_finish c_start]; rewrite Hs; exact Hc | exact Hp4].
+    - apply H; [rewrite Hs; exact Hc | exact Hp'].
+  Qed.
+
+  Lemma oks_do_arr n body q cst p k d : areqs_oks n body -> Lpos (c_start cst) -> Lpos p ->
+    (forall toks cst' p' d', Lpos (c_start cst') -> Lpos p' -> OKS (k toks cst' p') d') -> OKS (c_do_arr n (c_areqs n body) q cst p k) d.
+  Proof.
+    intros IHb Hc Hp H. unfold c_do_arr. apply oks_find; [exact Hc | exact Hp |].
+    intros b cst' p' d' Hs Hp'. destruct b.
+    - apply (oks_arr_child n body (fun toks p4 => k toks (c_on_finish cst') p4) d' IHb).
+      intros toks p4 d4 Hp4. apply H; [cbn [c_on_finish c_start]; rewrite Hs; exact Hc | exact Hp4].
+    - apply H; [rewrite Hs; exact Hc | exact Hp'].
+  Qed.
+
+  Lemma programs_oks n : (forall r, req_oks n r) /\ (forall l, reqs_oks n l) /\ (forall a, areq_oks n a) /\ (forall l, areqs_oks n l)
+                 /\ (forall a, vact_oks n a) /\ (forall l, vacts_oks n l).
+  Proof.
+    apply program_mutind;
+      try (intros; intros cst p k d _ _ _; apply OKS_fail); try (intros; intros ast p k d _ _; apply OKS_fail);
+      try (intros; intros q cst p k d _ _ _; apply OKS_fail).
+    - (* RGet *) intros q t cst p k d. apply oks_do_get.
+    - (* RObj *) intros q body IHb cst p k d. apply (oks_do_obj n body q cst p k d IHb).
+    - (* RArr *) intros q body IHb cst p k d. apply (oks_do_arr n body q cst p k d IHb).
     - (* RVisit *)
       intros cst p k d Hc Hp H. cbn [c_req]. apply oks_reset; [exact Hp|]. intros cst1 p1 d1 Hs1 Hp1.
       apply oks_seek_if; [rewrite Hs1; exact Hc | exact Hp1 |]. intros p' d' Hp'.
       apply oks_visit_loop; [exact Hp'|]. intros toks cst' p2 d2 Hs2 Hp2. apply H; [|exact Hp2].
       rewrite Hs2. cbn [c_set_index c_start]. rewrite Hs1. exact Hc.
+    - (* REach *)
+      intros acts IHa cst p k d Hc Hp H.
+      change (c_req n (REach acts) cst p k) with
+        (c_reset_key cst p (fun cst1 p1 =>
+          c_seek_if true (c_start cst1) p1 (fun p' => c_vacts n acts (c_set_index cst1 0) p' k))).
+      apply oks_reset; [exact Hp|]. intros cst1 p1 d1 Hs1 Hp1.
+      apply oks_seek_if; [rewrite Hs1; exact Hc | exact Hp1 |]. intros p' d' Hp'.
+      apply IHa; [cbn [c_set_index c_start]; rewrite Hs1; exact Hc | exact Hp' | exact H].
     - (* RNil *)
       intros cst p k d Hc Hp H. cbn [c_reqs]. apply H; assumption.
     - (* RCons *)
@@ -1020,28 +1096,14 @@ Section ClientProofs.
       intros body IHb ast p k d Hp H.
       change (c_areq n (AObj body) ast p k) with
         (if a_index ast =? a_size ast then fail
-         else call SM.RdMap
-              (fun v p2 => match v with
-                           | SM.VNum sz =>
-                             c_reqs n body (mkC p2 sz 0 None) p2 (fun toks ccst p3 =>
-                               c_close_obj n ccst p3 (fun p4 => (fun toks p4 => k toks (mkA (a_size ast) (a_index ast + 1)) p4) (KOpen :: toks ++ [KClose]) p4))
-                           | _ => fail
-                           end)
-              (fun p2 => (fun toks p4 => k toks (mkA (a_size ast) (a_index ast + 1)) p4) [KNone] p2)).
+         else c_obj_child n (c_reqs n body) (fun toks p4 => k toks (mkA (a_size ast) (a_index ast + 1)) p4)).
       destruct (a_index ast =? a_size ast); [apply OKS_fail|].
       apply (oks_obj_child n body (fun toks p4 => k toks (mkA (a_size ast) (a_index ast + 1)) p4) d IHb). intros toks p4 d4 Hp4. apply H; exact Hp4.
     - (* AArr *)
       intros body IHb ast p k d Hp H.
       change (c_areq n (AArr body) ast p k) with
         (if a_index ast =? a_size ast then fail
-         else call SM.RdArr
-              (fun v p2 => match v with
-                           | SM.VNum sz =>
-                             c_areqs n body (mkA sz 0) p2 (fun toks cast p3 =>
-                               c_close_arr n cast p3 (fun p4 => (fun toks p4 => k toks (mkA (a_size ast) (a_index ast + 1)) p4) (KOpen :: toks ++ [KClose]) p4))
-                           | _ => fail
-                           end)
-              (fun p2 => (fun toks p4 => k toks (mkA (a_size ast) (a_index ast + 1)) p4) [KNone] p2)).
+         else c_arr_child n (c_areqs n body) (fun toks p4 => k toks (mkA (a_size ast) (a_index ast + 1)) p4)).
       destruct (a_index ast =? a_size ast); [apply OKS_fail|].
       apply (oks_arr_child n body (fun toks p4 => k toks (mkA (a_size ast) (a_index ast + 1)) p4) d IHb). intros toks p4 d4 Hp4. apply H; exact Hp4.
     - (* AEnd *)
@@ -1054,13 +1116,35 @@ Section ClientProofs.
         (c_areq n a ast p (fun t1 ast1 p1 => c_areqs n l ast1 p1 (fun t2 ast2 p2 => k (t1 ++ t2) ast2 p2))).
       apply IHa; [exact Hp |]. intros t1 ast1 p1 d1 Hp1.
       apply IHl; [exact Hp1 |]. intros t2 ast2 p2 d2 Hp2. apply H; assumption.
+    - (* VSkip *)
+      intros q cst p k d Hc Hp H. cbn [c_vact]. apply H; assumption.
+    - (* VGet *) intros t q cst p k d. apply oks_do_get.
+    - (* VObj *) intros body IHb q cst p k d. apply (oks_do_obj n body q cst p k d IHb).
+    - (* VArr *) intros body IHb q cst p k d. apply (oks_do_arr n body q cst p k d IHb).
+    - (* VANil *)
+      intros cst p k d Hc Hp H. cbn [c_vacts]. apply oks_visit_loop; [exact Hp|].
+      intros toks cst' p' d' Hs' Hp'. apply H; [rewrite Hs'; exact Hc | exact Hp'].
+    - (* VACons *)
+      intros a IHa acts IHl cst p k d Hc Hp H.
+      change (c_vacts n (VACons a acts) cst p k) with
+        (if c_index cst <? c_size cst then
+          c_read_key (fun key p1 =>
+            c_vact n a (qkey_of_skey key) (c_set_key cst (Some key)) p1 (fun t1 cst2 p2 =>
+              c_reset_key cst2 p2 (fun cst3 p3 =>
+                c_vacts n acts cst3 p3 (fun t2 cst4 p4 => k (t1 ++ t2) cst4 p4))))
+        else k [] cst p).
+      destruct (c_index cst <? c_size cst); [|apply H; assumption].
+      apply oks_read_key. intros key p1 d1 Hp1.
+      apply IHa; [exact Hc | exact Hp1 |]. intros t1 cst2 p2 d2 Hc2 Hp2.
+      apply oks_reset; [exact Hp2|]. intros cst3 p3 d3 Hs3 Hp3.
+      apply IHl; [rewrite Hs3; exact Hc2 | exact Hp3 |]. intros t2 cst4 p4 d4 Hc4 Hp4. apply H; assumption.
   Qed.
 
   (* every SetPosition goes to an mStartPos, which is a GetPosition() answer: inside the data, whatever the data *)
   Lemma scope_client_seeks_ok n h d : SM.client_seeks_ok narrow widen data o (scope_client n h) d = true.
   Proof.
     change (OKS (scope_client n h) d). unfold scope_client.
-    destruct (programs_oks n) as [_ Hq].
+    destruct (programs_oks n) as [_ [Hq _]].
     apply (oks_obj_child n h (fun toks p4 => SM.CRet (Some (toks, p4, false))) d (Hq h)). intros; reflexivity.
   Qed.
 End ClientProofs.
